@@ -174,6 +174,7 @@ fn main() {
     macro_rules! add {
         ($U:ty, $I:ty) => {
             jobs_for::<$U, $I>(&mut jobs);
+            checks::siblings::topic_jobs::<$U, $I>(&mut jobs, checks::siblings::Group::Shift, 150, FACTOR);
         };
     }
     for_all_cfgs!(add);
@@ -181,7 +182,7 @@ fn main() {
     runner::main(
         Property {
             id: "C05",
-            rule: "Values are structured W-bit patterns (signed: half of the cases forced negative); amounts come from {0, 1, d-1, d, d+1, k*d, k*d+-1, W-1, W, W+1, 2W-1, 2W, u32::MAX, 2^k+W-1, uniform < W, uniform < 2W, uniform u32} with d = digit bits. Oracle: shl = (x*2^s) mod 2^W and shr = floor(x/2^s) in the reference integer, rotation = explicit bit permutation of the pattern; checked/overflowing/wrapping/strict/unchecked/unbounded forms, the << >> operators and const twins (in-range amounts), rotate_left/right and their inverse laws. The value of wrapping/overflowing shifts for s >= BITS is asserted only when BITS is a power of two (as the property states). NON-TRIVIAL: 0 < s < W with digit offset >= 1 and bit offset != 0, or s >= W, or a negative value shifted by s > 0; rotation: n mod W != 0 and (W not a power of two, or n >= W, or n not a multiple of the digit size). distinct = distinct (profile, job, inputs) by 64-bit hash. 8-bit configuration enumerated over all values x 49 amounts; BUintD8<3> over all rotation amounts 0..=72. A deterministic SWEEP additionally enumerates, per configuration, position-specific inputs (2^k - 1, 2^k, 2^k + 1 with their negations and complements; carry / borrow chains and power-of-two products ending at every bit position k; every shift / rotate amount; every bit index; every float exponent) - all positions on types up to 1088 bits, a sparse selection of a few hundred positions on wider types in the quick tier, all positions in the thorough tier.",
+            rule: "Values are structured W-bit patterns (signed: half of the cases forced negative); amounts come from {0, 1, d-1, d, d+1, k*d, k*d+-1, W-1, W, W+1, 2W-1, 2W, u32::MAX, 2^k+W-1, uniform < W, uniform < 2W, uniform u32} with d = digit bits. Oracle: shl = (x*2^s) mod 2^W and shr = floor(x/2^s) in the reference integer, rotation = explicit bit permutation of the pattern; checked/overflowing/wrapping/strict/unchecked/unbounded forms, the << >> operators and const twins (in-range amounts), rotate_left/right and their inverse laws. The value of wrapping/overflowing shifts for s >= BITS is asserted only when BITS is a power of two (as the property states). NON-TRIVIAL: 0 < s < W with digit offset >= 1 and bit offset != 0, or s >= W, or a negative value shifted by s > 0; rotation: n mod W != 0 and (W not a power of two, or n >= W, or n not a multiple of the digit size). distinct = distinct (profile, job, inputs) by 64-bit hash. 8-bit configuration enumerated over all values x 49 amounts; BUintD8<3> over all rotation amounts 0..=72. A deterministic SWEEP additionally enumerates, per configuration, position-specific inputs (2^k - 1, 2^k, 2^k + 1 with their negations and complements; carry / borrow chains and power-of-two products ending at every bit position k; every shift / rotate amount; every bit index; every float exponent) - all positions on types up to 1088 bits, a sparse selection of a few hundred positions on wider types in the quick tier, all positions in the thorough tier. SIBLINGS job (per configuration): the entry points of this property's own operations that other properties anchor - the six operand forms of the std operators (a op b, &a op b, a op &b, &a op &b, a op= b, a op= &b; for shifts every primitive and bnum-typed amount type), Sum/Product, and the num_traits forwarders - are compared with the inherent method / const twin (same value, same panic outcome), so that a regression confined to one rarely used entry point is reported by the check of the operation it belongs to as well as by C17/C18.",
             assumptions: &[
                 "digits()/from_digits()/to_bits()/from_bits() are the trusted observation channel",
                 "unchecked_shl/shr are only called with s < BITS (their safety contract)",
